@@ -162,8 +162,72 @@ def axes_case(ctx: Ctx, stream: str, i: int) -> None:
         check(ctx, stream, i, e, f'axes:{which}:{label}:untouched-{"first" if untouched_first else "last"}')
 
 
+def param_shape_case(ctx: Ctx, stream: str, i: int) -> None:
+    """operators whose PARAMETER arrays have more (or other) dimensions than the leaves they act on: rotation angles of
+    higher rank than the samples, one Toeplitz band row per detector on fewer detectors, einsum blocks whose named
+    axis of size 1 is stretched over a longer leaf axis.  The constructor may refuse them (ValueError); what it accepts
+    must declare the structures that `mv` — and the transpose — really have"""
+    from furax._base.dense import DenseBlockDiagonalOperator
+    from furax.landscapes import StokesPyTree
+    from furax.operators.qu_rotations import QURotationOperator
+    from furax.operators.toeplitz import SymmetricBandToeplitzOperator
+    rng = ctx.rng(stream, i)
+    dt = jnp.float32
+    which = ['qurot-angles', 'toeplitz-band-batch', 'einsum-stretch'][i % 3]
+    if which == 'qurot-angles':
+        kind = rng.choice(['QU', 'IQU', 'IQUV'])
+        shape = rng.choice([(2,), (3,), (2, 3)])
+        ashape = rng.choice([(2, 1), (2,) + shape, (1,) + shape, (3, 1, 1), shape + (1,), shape, shape[-1:], ()])
+        angles = jnp.asarray(np.arange(1, int(np.prod(ashape)) + 1, dtype=np.float64).reshape(ashape) / 7, dtype=dt)
+        mk = lambda: QURotationOperator(angles, StokesPyTree.class_for(kind).structure_for(shape, dt))     # noqa: E731
+        cfg = {'which': which, 'kind': kind, 'sample_shape': shape, 'angles_shape': ashape}
+    elif which == 'toeplitz-band-batch':
+        n, K = rng.choice([3, 4, 5]), rng.choice([1, 2, 3])
+        dshape = rng.choice([(n,), (1, n), (2, n), (2, 3, n)])
+        bshape = rng.choice([(2, K), (3, K), (1, K), (2, 1, K), (1, 1, 1, K), (2, 3, K), (K,), (3, 1, K)])
+        band = jnp.asarray(np.arange(1, int(np.prod(bshape)) + 1, dtype=np.float64).reshape(bshape), dtype=dt)
+        method = rng.choice(['dense', 'direct', 'fft', 'overlap_save'])
+        mk = lambda: SymmetricBandToeplitzOperator(band, jax.ShapeDtypeStruct(dshape, dt), method=method)   # noqa: E731
+        cfg = {'which': which, 'data_shape': dshape, 'band_shape': bshape, 'method': method}
+    else:
+        subs, bshape, xshape = rng.choice([
+            ('ij,j->i', (2, 1), (3,)), ('ij...,j...->i...', (2, 3, 5), (3,)), ('ij...,j...->i...', (2, 3, 5), (3, 1)),
+            ('ij...,j...->i...', (2, 1), (3, 2)), ('ij...,j...->i...', (2, 3, 1), (3, 4)), ('ij...,j...->i...', (2, 3), (3, 4)),
+            ('kij,kj->ki', (1, 2, 3), (4, 3)), ('ij...,j...->i...', (2, 3, 4), (3, 4)), ('ij,j->i', (2, 3), (3,)),
+            ('ikj,kj->ki', (2, 1, 3), (4, 3))])
+        blocks = jnp.asarray(np.arange(1, int(np.prod(bshape)) + 1, dtype=np.float64).reshape(bshape), dtype=dt)
+        mk = lambda: DenseBlockDiagonalOperator(blocks, jax.ShapeDtypeStruct(xshape, dt), subs)             # noqa: E731
+        cfg = {'which': which, 'subscripts': subs, 'blocks_shape': bshape, 'leaf_shape': xshape}
+    st, op = safe(mk)
+    ctx.count(f'param-shape:{which}:' + ('accepted' if st == 'ok' else 'refused'))
+    if st == 'ok':
+        ins, outs = op.in_structure(), op.out_structure()
+        st1, real = safe(jax.eval_shape, op.mv, ins)
+        if st1 != 'ok':
+            ctx.fail(stream, i, f'accepted-parameter-shape-cannot-be-applied:{which}', f'the constructor accepts {cfg} but applying the '
+                     f'operator to an input of its declared structure raises {st1}: {str(real)[:120]}', cfg)
+        elif not gen.same_structure(real, outs):
+            ctx.fail(stream, i, f'out-structure-dishonest:{which}', f'out_structure() = {outs} but mv returns {real}', cfg)
+        else:
+            stt, t = safe(lambda: op.T)
+            if stt == 'ok' and not (gen.same_structure(t.in_structure(), outs) and gen.same_structure(t.out_structure(), ins)):
+                ctx.fail(stream, i, f'transpose-structures:{which}', f'A.T maps {t.in_structure()} to {t.out_structure()}: not the '
+                         f'structures of A swapped ({outs} to {ins})', cfg)
+            elif stt == 'ok':
+                st2, realt = safe(jax.eval_shape, t.mv, t.in_structure())
+                if st2 != 'ok' or not gen.same_structure(realt, t.out_structure()):
+                    ctx.fail(stream, i, f'transpose-out-structure-dishonest:{which}', f'A.T declares {t.out_structure()} but its mv '
+                             f'gives {realt if st2 == "ok" else st2}', cfg)
+    elif st != 'ValueError':
+        ctx.fail(stream, i, f'parameter-shape-raises-{st}:{which}', f'constructor raised {st} (a refusal is a ValueError): {str(op)[:120]}', cfg)
+    ctx.case(f'param-shape:{cfg}', True, sample=cfg)
+
+
 def run(ctx: Ctx) -> None:
     q = ctx.tier == 'quick'
+    for i in range(60 if q else 900):
+        if ctx.want('params', i):
+            param_shape_case(ctx, 'params', i)
     for i in range(48 if q else 600):
         if ctx.want('axes', i):
             axes_case(ctx, 'axes', i)
